@@ -8,11 +8,13 @@ import (
 	"testing"
 	"time"
 
+	"google.golang.org/grpc"
 	"google.golang.org/protobuf/proto"
 	"google.golang.org/protobuf/types/known/fieldmaskpb"
 	"pgregory.net/rapid"
 
 	"github.com/smart-core-os/sc-api/go/traits"
+	timepb "github.com/smart-core-os/sc-api/go/types/time"
 
 	"github.com/smart-core-os/sc-golang/pkg/resource"
 	"github.com/smart-core-os/sc-golang/pkg/trait"
@@ -244,7 +246,25 @@ func enterLeaveDriver(t *rapid.T, ctx context.Context, reg *registry) driver {
 		{name: "PullEnterLeaveEvents", readOnly: true, run: func(t *rapid.T, reg *registry) {
 			got := make(chan struct{}, 1)
 			first := true
-			pump(ctx, m.PullEnterLeaveEvents(ctx, resource.WithBackpressure(true)), reg, func(e enterleavesensorpb.EnterLeaveEventChange) []proto.Message {
+			ropts := []resource.ReadOption{resource.WithBackpressure(true)}
+			switch rapid.IntRange(0, 5).Draw(t, "pullMask") {
+			case 0, 1:
+				mask, _ := lib.DrawMask(t, "readMask", (&traits.EnterLeaveEvent{}).ProtoReflect().Descriptor())
+				ropts = append(ropts, resource.WithReadMask(mask))
+			case 2:
+				// the model edits the seed it hands out (occupant and direction are blanked): whatever the mask selects,
+				// that must be a copy
+				cur, _ := m.GetEnterLeaveEvent()
+				if cur == nil {
+					cur = &traits.EnterLeaveEvent{}
+				}
+				mask, _, _ := lib.DrawCorruptMask(t, "oddMask", cur.ProtoReflect().Descriptor(), cur)
+				if rapid.Bool().Draw(t, "wildcard") {
+					mask = &fieldmaskpb.FieldMask{Paths: []string{"*"}}
+				}
+				ropts = append(ropts, resource.WithReadMask(mask))
+			}
+			pump(ctx, m.PullEnterLeaveEvents(ctx, ropts...), reg, func(e enterleavesensorpb.EnterLeaveEventChange) []proto.Message {
 				if first {
 					first = false
 					got <- struct{}{}
@@ -531,8 +551,31 @@ func hailDriver(t *rapid.T, ctx context.Context, reg *registry) driver {
 	return d
 }
 
+type bookingStream struct {
+	grpc.ServerStream
+	ctx context.Context
+	reg *registry
+}
+
+func (s *bookingStream) Context() context.Context { return s.ctx }
+func (s *bookingStream) Send(r *traits.PullBookingsResponse) error {
+	for _, c := range r.Changes {
+		if c.OldValue != nil {
+			s.reg.observe("event", c.OldValue)
+		}
+		if c.NewValue != nil {
+			s.reg.observe("event", c.NewValue)
+		}
+	}
+	return nil
+}
+
 func bookingDriver(t *rapid.T, ctx context.Context, reg *registry) driver {
 	m := bookingpb.NewModel()
+	srv := bookingpb.NewModelServer(m)
+	// bookings are stored as written, also when their times are written in a non-canonical form
+	mgen := mgen
+	mgen.OddTimes = true
 	d := driver{name: "booking"}
 	ids := []string{"b1", "b2"}
 	d.state = func() []proto.Message {
@@ -568,6 +611,21 @@ func bookingDriver(t *rapid.T, ctx context.Context, reg *registry) driver {
 			pump(ctx, m.PullBookings(ctx, resource.WithBackpressure(true)), reg, func(e bookingpb.BookingChange) []proto.Message {
 				return []proto.Message{e.OldValue, e.NewValue}
 			})
+		}},
+		// the filtered views the server offers: the period predicate is given the stored bookings
+		{name: "server.ListBookings(intersects)", readOnly: true, run: func(t *rapid.T, reg *registry) {
+			q := lib.GenMessage(t, "query", &timepb.Period{}, mgen).(*timepb.Period)
+			if res, err := srv.ListBookings(ctx, &traits.ListBookingsRequest{Name: "n", BookingIntersects: q}); err == nil {
+				for _, b := range res.Bookings {
+					reg.observe("read", b)
+				}
+			}
+		}},
+		{name: "server.PullBookings(intersects)", readOnly: true, run: func(t *rapid.T, reg *registry) {
+			q := lib.GenMessage(t, "query", &timepb.Period{}, mgen).(*timepb.Period)
+			go func() {
+				_ = srv.PullBookings(&traits.ListBookingsRequest{Name: "n", BookingIntersects: q}, &bookingStream{ctx: ctx, reg: reg})
+			}()
 		}},
 	}
 	return d
